@@ -46,6 +46,7 @@ RunDef(r) ==
       [] r = "sigu"   -> R(1, "sigops", "sig",   "std",   "all")
       [] r = "sig2"   -> R(2, "sig",    "sig1",  "std",   "all")
       [] r = "skip3"  -> R(3, "all",    "empty", "quick", "skip")
+      [] r = "data"   -> R(1, "data",   "empty", "min",   "all")
       [] r = "sim"    -> R(40, "small", "empty", "quick", "alive")
       \* thorough tier
       [] r = "core3"  -> R(3, "core",   "empty", "std",   "all")
@@ -119,6 +120,9 @@ AlphaTiny ==
 \* conditionals only: nesting, ELSE in branches that are skipped
 AlphaCond == {Op("OP_0"), OpN(1)} \cup Ops({"OP_IF", "OP_NOTIF", "OP_ELSE", "OP_ENDIF", "OP_RETURN"})
 
+\* OP_DATA_1 .. OP_DATA_75, each with data of its length
+AlphaData == {PushEnc(IF len <= 40 THEN Raw([i \in 1..len |-> 5]) ELSE Fill(5, len), "d") : len \in 1..75}
+
 \* every opcode byte and every push form: the unit sweep
 AlphaAll == AllOneByte \cup PushForms
 
@@ -139,6 +143,7 @@ AlphaOf(AlphaName) ==
            [] AlphaName = "small" -> AlphaSmall
            [] AlphaName = "tiny"  -> AlphaTiny
            [] AlphaName = "cond"  -> AlphaCond
+           [] AlphaName = "data"  -> AlphaData
            [] AlphaName = "all"   -> AlphaAll
            [] AlphaName = "sig"   -> AlphaSig
            [] AlphaName = "sigops" -> AlphaSigOps
